@@ -9,6 +9,10 @@ Line-protocol front end of the C07 model.
 C07 coef <family> fwd|bwd <n|->     -> ok κ          exponent coefficient of the multiplier
 C07 magnify m1 m2                   -> ok w d        weight factor |m1 m2| and squared field divisor
 C07 magweights fwd|bwd m1 m2 [w]    -> ok [w']       cell areas of the returned grid: w_i·|m1 m2| (forward), w_i/|m1 m2| (backward)
+C07 lazyw auto|- slot read|noread j n -> ok [w']     weights a reader sees on the grid `CartesianGrid.scale` produced from a grid whose
+                                                         `_weights` slot is `-` (empty) | `s:w` | `[w…]`, read before the call or not (`LazyW.scale`, `seen`)
+C07 lazywold auto|- slot j n        -> ok [w']     the same for `LazyW.scaleOld` (rescale only a materialised slot): the harness checks that the
+                                                         running code does NOT behave like it on unread grids without automatic weights
 C07 magnifyold m1 m2                -> ok d | err value   (unrepaired: sqrt of the signed product)
 C07 mask fwd|bwd [E] [t] [w]        -> ok [E'] pin pout  Apodizer / any phase-only element: E·t (E·conj t), total power
                                                          before / after **with the input weights** (complex lists are flat re,im,…)
@@ -68,6 +72,32 @@ def step (st : St) : List String → St × String
       let out := if dir == "fwd" then magWeights a b (ratFn w) else magWeightsBack a b (ratFn w)
       (st, "ok " ++ showRatList ((List.range w.length).map out))
     | _, _, _ => (st, "bad-op")
+  | ["lazyw", auto, slot, rd, j, n] =>
+    -- slot: `-` (nobody read the weights yet) | `s:<w>` | `[w…]`;  auto: `-` (unstructured coordinates) | automatic weight
+    let auto? : Option (Option Rat) := if auto == "-" then some none else (parseRat? auto).map some
+    let slot? : Option LazyW :=
+      if slot == "-" then some .unset
+      else if slot.startsWith "s:" then (parseRat? (slot.drop 2).toString).map .scalar
+      else (parseRatList? slot).map .points
+    match auto?, slot?, parseRat? j, n.toNat? with
+    | some a, some s, some j, some n =>
+      if rd ≠ "read" ∧ rd ≠ "noread" then (st, "bad-op") else
+      let s := if rd == "read" then s.read a else s
+      -- the coordinates are scaled too: a reader of the result would recompute automatic weights from them
+      let out := (s.scale a j).seen (a.map (· * j))
+      (st, "ok " ++ showRatList ((List.range n).map out))
+    | _, _, _, _ => (st, "bad-op")
+  | ["lazywold", auto, slot, j, n] =>
+    -- the variant that rescales only a materialised slot (seed C07-10): what a reader of the scaled grid would see
+    let auto? : Option (Option Rat) := if auto == "-" then some none else (parseRat? auto).map some
+    let slot? : Option LazyW :=
+      if slot == "-" then some .unset
+      else if slot.startsWith "s:" then (parseRat? (slot.drop 2).toString).map .scalar
+      else (parseRatList? slot).map .points
+    match auto?, slot?, parseRat? j, n.toNat? with
+    | some a, some s, some j, some n =>
+      (st, "ok " ++ showRatList ((List.range n).map ((s.scaleOld j).seen (a.map (· * j)))))
+    | _, _, _, _ => (st, "bad-op")
   | ["magnifyold", m1, m2] =>
     match parseRat? m1, parseRat? m2 with
     | some a, some b =>
